@@ -17,4 +17,4 @@ for ID in "$@"; do
 done
 K=$(echo "$WT" | cksum | cut -d" " -f1)
 git -C /repo worktree remove --force $WT
-rm -rf $OUT $OUT.build $OUT.tests /verif/.work/alt-$K /verif/.work/seam-$K* /verif/.work/bin/check-*-$K
+rm -rf $OUT $OUT.build $OUT.tests /verif/.work/alt-$K /verif/.work/seam-*-$K /verif/.work/bin/check-*-$K
